@@ -82,6 +82,7 @@ def sSetenv : Str := [115, 101, 116, 101, 110, 118]             -- setenv
 def sUnsetenv : Str := [117, 110, 115, 101, 116, 101, 110, 118] -- unsetenv
 def sAlias : Str := [97, 108, 105, 97, 115]                     -- alias
 def sUnalias : Str := [117, 110, 97, 108, 105, 97, 115]         -- unalias
+def sDashF : Str := [45, 102]                                   -- -f
 def sTrue : Str := [116, 114, 117, 101]
 def sFalse : Str := [102, 97, 108, 115, 101]
 def sColon : Str := [58]
@@ -183,7 +184,7 @@ def render (o : Opts) : Cmd → Option Str
   | .aliasDel k =>
     match o.shell with
     | .csh => some (echoWrap o (sUnalias ++ [32] ++ k))
-    | _ => some (echoWrap o (sUnset ++ [32] ++ k))
+    | _ => some (echoWrap o (sUnset ++ [32] ++ sDashF ++ [32] ++ k))
 
 /-- all commands of a successful `app.setup`, in order -/
 def emitCmds (o : Opts) (old : OldEnv) (new : Env) (aliases : List (Str × Str)) (oldAliases : List (Str × Option Str)) :
@@ -209,6 +210,10 @@ def emitText (old : OldEnv) (new : Env) : Str :=
 structure SetupSt where
   old : OldEnv
   cur : Env
+  /-- `Eups.aliases` -/
+  aliases : List (Str × Str) := []
+  /-- `Eups.oldAliases` (`None` after `unsetAlias`) -/
+  oldAliases : List (Str × Option Str) := []
   deriving DecidableEq, Repr
 
 /-- `execute_envSet` with the expanded value `v` (`[]`: the expansion came back empty and the action returns
@@ -216,37 +221,51 @@ early).  With `--force` the old value is forgotten, in both directions, before a
 def envSetAct (force fwd : Bool) (k v : Str) (s : SetupSt) : SetupSt :=
   let old' := if force then s.old.forget k else s.old
   if fwd then
-    if v.isEmpty then { s with old := old' } else { old := old', cur := s.cur.set k v }
-  else { old := old', cur := s.cur.unset k }
+    if v.isEmpty then { s with old := old' } else { s with old := old', cur := s.cur.set k v }
+  else { s with old := old', cur := s.cur.unset k }
 
 /-- the pinned `execute_envSet`: the `oldEnviron` entry is deleted -/
 def envSetActPinned (force fwd : Bool) (k v : Str) (s : SetupSt) : SetupSt :=
   let old' := if force then s.old.erase k else s.old
   if fwd then
-    if v.isEmpty then { s with old := old' } else { old := old', cur := s.cur.set k v }
-  else { old := old', cur := s.cur.unset k }
+    if v.isEmpty then { s with old := old' } else { s with old := old', cur := s.cur.set k v }
+  else { s with old := old', cur := s.cur.unset k }
 
 /-- `execute_envPrepend` with the resulting path string `v` (always set, in both directions) -/
 def pathAct (force : Bool) (k v : Str) (s : SetupSt) : SetupSt :=
-  { old := if force then s.old.forget k else s.old, cur := s.cur.set k v }
+  { s with old := if force then s.old.forget k else s.old, cur := s.cur.set k v }
 
 /-- the pinned `execute_envPrepend` -/
 def pathActPinned (force : Bool) (k v : Str) (s : SetupSt) : SetupSt :=
-  { old := if force then s.old.erase k else s.old, cur := s.cur.set k v }
+  { s with old := if force then s.old.erase k else s.old, cur := s.cur.set k v }
 
 /-- `execute_envUnset` / `Eups.unsetEnv` -/
 def unsetAct (k : Str) (s : SetupSt) : SetupSt := { s with cur := s.cur.unset k }
+
+/-- `execute_addAlias`: `Eups.setAlias` / `Eups.unsetAlias`, and under `--force` the old alias is forgotten first -/
+def aliasAct (force fwd : Bool) (k v : Str) (s : SetupSt) : SetupSt :=
+  let oa := if force then s.oldAliases.filter (fun p => p.1 ≠ k) else s.oldAliases
+  if fwd then
+    { s with oldAliases := oa,
+             aliases := if s.aliases.any (·.1 == k) then s.aliases.map (fun p => if p.1 = k then (k, v) else p)
+                        else s.aliases ++ [(k, v)] }
+  else
+    { s with aliases := s.aliases.filter (fun p => p.1 ≠ k),
+             oldAliases := if oa.any (·.1 == k) then oa.map (fun p => if p.1 = k then (k, none) else p)
+                           else oa ++ [(k, none)] }
 
 inductive Act
   | envSet (force fwd : Bool) (k v : Str)
   | path (force : Bool) (k v : Str)
   | unset (k : Str)
+  | alias (force fwd : Bool) (k v : Str)
   deriving DecidableEq, Repr
 
 def Act.run (pinned : Bool) : Act → SetupSt → SetupSt
   | .envSet f d k v, s => if pinned then envSetActPinned f d k v s else envSetAct f d k v s
   | .path f k v, s => if pinned then pathActPinned f k v s else pathAct f k v s
   | .unset k, s => unsetAct k s
+  | .alias f d k v, s => aliasAct f d k v s
 
 def runActs (pinned : Bool) (acts : List Act) (base : Env) : SetupSt :=
   acts.foldl (fun s a => a.run pinned s) { old := OldEnv.ofEnv base, cur := base }
@@ -289,7 +308,9 @@ def exec (env : Env) : List Str → Option Env
   | [] => some env
   | w :: args =>
     if w == sExport then (if args.isEmpty then none else args.foldlM exportArg env)
-    else if w == sUnset then args.foldlM unsetArg env
+    else if w == sUnset then
+      (if args.head? == some sDashF then (if (args.drop 1).all isIdent then some env else none)   -- functions only
+       else args.foldlM unsetArg env)
     else if w == sTrue || w == sFalse || w == sColon then some env
     else none
 
